@@ -602,10 +602,9 @@ func (w *world) apply(o Op) (outcome string) {
 			w.cluster.SplitRaw(r.id, newID, []byte(k), peerIDs, peerIDs[li])
 		}
 		old, nw := w.live(r.id), w.live(newID)
-		// Real TiKV gives both halves parent.version+1 and the parent's conf version; the mock
-		// starts the new region at version 1, which would make epochs of overlapping regions
-		// incomparable (the cache relies on that order, see removeIntersecting).
-		setEpoch(nw, r.conf, old.Meta.RegionEpoch.Version)
+		// (The mock used to start the split-off region at its own version counter; the harness patched the
+		// epoch to TiKV's rule here. Since the repository fix "mocktikv split/merge follow TiKV's region
+		// version rule" the mock's own result is used as it is.)
 		if o.Kind == "splitl" { // the new id takes the LEFT half (TiKV's right-derive split)
 			if w.check {
 				w.st.rightDerive.Add(1)
@@ -617,12 +616,7 @@ func (w *world) apply(o Op) (outcome string) {
 		t := w.topo()
 		for i := 1; i < len(t); i++ {
 			if t[i].start == k {
-				w.cluster.Merge(t[i-1].id, t[i].id)
-				v := t[i-1].ver
-				if t[i].ver > v {
-					v = t[i].ver
-				}
-				setEpoch(w.live(t[i-1].id), t[i-1].conf, v+1) // TiKV: max(source,target)+1
+				w.cluster.Merge(t[i-1].id, t[i].id) // the mock's own epoch rule (TiKV's since the repository fix)
 			}
 		}
 		w.snapshot()
